@@ -4,6 +4,7 @@
     taurex/opacity/opacity.py:Opacity.opacity  (selection / interpolation of cross-sections on a requested grid)
   `compute_bin_edges` is the C05 model's (`Binning.computeBinEdges`), `np.interp` the shared `NpInterp.npInterp`.
 -/
+import TaurexModel.Interp
 import TaurexModel.Binning
 import TaurexModel.NpInterp
 
@@ -41,13 +42,19 @@ def eqL : List α → List α → Bool
 def inRange (req : List α) (x : α) : Bool := decide (minL req ≤ x) && decide (x ≤ maxL req)
 
 /-- `Opacity.opacity(T, P, wngrid=req)` given the values `vals` computed on the molecule's native grid:
-    the values on the native points inside the requested range if those points *are* the request,
-    otherwise `np.interp(req, selected native points, their values)`. -/
+    the values on the native points inside the requested range if those points *are* the request; otherwise
+    `np.interp(req, sel, their values)` where `sel` is the native points from the last one `≤ req.min()` to the
+    first one `≥ req.max()` (the bracketing points are kept so that the ends of the request are interpolated,
+    not clamped — /repo fix "interpolate a request between the native points that bracket it"). -/
 def opacityOnGrid (nativeWn vals req : List α) : List α :=
   let sel := (nativeWn.zip vals).filter (fun p => inRange req p.1)
-  let wnSel := sel.map (·.1)
-  let vSel := sel.map (·.2)
-  if eqL wnSel req then vSel else req.map (npInterp wnSel vSel)
+  if eqL (sel.map (·.1)) req then sel.map (·.2)
+  else
+    let lo := Interp.searchRight nativeWn (minL req) - 1
+    let hi := min (Interp.searchLeft nativeWn (maxL req)) (nativeWn.length - 1)
+    let wnSel := (nativeWn.drop lo).take (hi + 1 - lo)
+    let vSel := (vals.drop lo).take (hi + 1 - lo)
+    req.map (npInterp wnSel vSel)
 
 end
 
